@@ -30,8 +30,8 @@ theorem C08.gen_thread_worker_never_silent (raises : Bool) (log : List String) :
 `step.execute` ends in `set_error` without the done flag, success ends in the done flag without `set_error` -/
 theorem C08.gen_sync_execute_reports (executeRaises prepRaises : Bool) :
     Gen.SyncExecute.syncExecuteStep () executeRaises prepRaises [] =
-      .ok (if prepRaises then ["prepare_execute_step", "format_exc", "set_error"]
-           else if executeRaises then ["prepare_execute_step", "prepare_tfs_and_joinstep", "format_exc", "set_error"]
+      .ok (if prepRaises then ["prepare_execute_step", "set_error"]
+           else if executeRaises then ["prepare_execute_step", "prepare_tfs_and_joinstep", "set_error"]
            else ["prepare_execute_step", "prepare_tfs_and_joinstep", "execute", "step_is_done:=true"]) := by
   cases executeRaises <;> cases prepRaises <;> rfl
 
@@ -43,4 +43,4 @@ theorem C08.gen_sync_execute_done_xor_error (executeRaises prepRaises : Bool) :
   cases executeRaises <;> cases prepRaises <;> simp
 
 example : Gen.SyncExecute.syncExecuteStep () true false [] =
-    .ok ["prepare_execute_step", "prepare_tfs_and_joinstep", "format_exc", "set_error"] := by rfl
+    .ok ["prepare_execute_step", "prepare_tfs_and_joinstep", "set_error"] := by rfl
